@@ -54,10 +54,14 @@ func VerifRun_C03b() {
 // c: strings and comments — `a=` followed by N bytes over the string/comment alphabet
 func VerifRun_C03c() {
 	body := verifBytesIn("str", verifParam("N"), "\"'\\nzx1a[]=-\n\r")
-	// in expression position (strings) or after a complete statement (comments between tokens)
+	// in expression position (strings), after a complete statement (comments between tokens), or inside a
+	// short string after a backslash
 	prefix := "a="
-	if verifBool("afterstat") {
+	switch verifConcretize(verifRange("context", 0, 2)) {
+	case 1:
 		prefix = "a=1 "
+	case 2:
+		prefix = "a=\"\\" // inside a short string, right after a backslash (escapes, line continuations)
 	}
 	src := append([]byte(prefix), body...)
 	c03compare(src)
